@@ -22,6 +22,8 @@ for name, c in sorted(confirm.items()):
     src = '/tmp/seed-%s-out/%s' % (pid, m)
     if not os.path.isdir(src):
         src = '/tmp/seed2-%s-out/%s' % (pid, m)     # second round of seeded changes (m3, m4)
+    if not os.path.isdir(src):
+        src = '/tmp/seed3-%s-out/%s' % (pid, m)     # third round (m5, m6)
     dst = '/verif/seeded/%s' % name
     os.makedirs(dst, exist_ok=True)
     # a patch written against an older tree was ported by hand to the current one where a later fix: commit touched the same lines
